@@ -15,6 +15,9 @@ Two harness families:
 Oracle (socket registry): success ⇒ exactly one library-created socket is open, it is connected, and it is the one
 returned; failure/cancel ⇒ no library-created socket is open and the caller saw ExceptionGroup[OSError]/OSError
 (CancelledError only if the harness cancelled).  If any attempt was established and nobody cancelled ⇒ success.
+Model: a resolved address is reachable if its scripted outcome is "connected" and, when ``local_address`` is given, at
+least one resolved local address of the same family can be bound (per-address EADDRINUSE/EADDRNOTAVAIL); a reachable
+address and nobody cancelled ⇒ success, from a bindable local address.
 """
 from __future__ import annotations
 
@@ -44,16 +47,21 @@ LEVEL = "fault_enumeration"
 RULE = (
     "scenario = 1-6 resolved addresses of mixed families x per-attempt outcome {connected at t, ECONNREFUSED/ENETUNREACH at t "
     "(asynchronous or synchronous), never} with t on a grid of half stagger delays (so that two attempts complete in the same "
-    "loop iteration) x happy_eyeballs_delay {default, 0, 0.25, inf} x socket() EMFILE x local_address with per-bind failures x "
+    "loop iteration) x happy_eyeballs_delay {default, 0, 0.25, inf} x socket() EMFILE x local_address whose host name resolves to "
+    "1-3 addresses per family (v4 only / v6 only / both, three list orders; a missing family = 'no matching local address') with "
+    "per-address bind errors (EADDRINUSE/EADDRNOTAVAIL on every bind() to that address) and, independently, failures of the k-th bind() call x "
     "entry point {resolver, backend.create_tcp_connection, AsyncTCPNetworkClient.wait_connected, backend.create_udp_endpoint}; "
     "sweep harnesses: for each base scenario task.cancel() before every loop iteration j=1..J+1 of the connecting task "
     "(one evaluation = base run + J+1 cancel runs; sweep-aclose: same sweep with client.aclose() started from another task instead "
     "of task.cancel(), oracle: nothing open once aclose() returned); race harnesses: one run with selector reorder/hold and at most one cancel "
     "at a random iteration or virtual time; a quarter of the scenarios are 'tail-only': unequal per-family address counts (1+3, 4+1, "
-    "2+4 ...) in three list orders where only the last address of the longer family is reachable and all others fail in finite time; "
+    "2+4 ...) in three list orders where only the last address of the longer family is reachable and all others fail in finite time "
+    "(optionally behind a local_address with per-address bind errors); "
     "oracle = registry of every socket the library created (open set vs returned socket) + order-independent model clauses: all "
-    "attempts failed => socket() was called once per resolved address; some resolved address is scripted reachable (no EMFILE/bind "
-    "faults, nobody cancelled) => the call succeeds unless a 'never' attempt blocks the race under an infinite stagger delay"
+    "attempts failed => socket() was called once per resolved address; some resolved address is scripted reachable and, when "
+    "local_address is given, at least one local address of its family can be bound (no EMFILE / k-th-call bind faults, nobody "
+    "cancelled) => the call succeeds unless a 'never' attempt blocks the race under an infinite stagger delay; on success with "
+    "local_address the returned socket is bound to a bindable local address of the family of its peer"
 )
 COMPONENTS_REAL = [
     "easynetwork.lowlevel.api_async.backend._common.dns_resolver (staggered race, _create_connection_impl)",
@@ -62,10 +70,11 @@ COMPONENTS_REAL = [
     "easynetwork.clients.async_tcp.AsyncTCPNetworkClient.wait_connected",
     "asyncio.SelectorEventLoop.sock_connect / create_connection(sock=) / create_datagram_endpoint(sock=)",
 ]
-COMPONENTS_STUB = ["SimSocket/SimNet (connect outcomes and times, EMFILE, bind errors)", "getaddrinfo table", "SimSelector", "virtual clock"]
+COMPONENTS_STUB = ["SimSocket/SimNet (connect outcomes and times, EMFILE, bind errors per local address and per call)", "getaddrinfo table (remote and local host names)", "SimSelector", "virtual clock"]
 ASSUMPTIONS = [
     "a connect attempt completes (SO_ERROR readable / socket writable) at one instant chosen by the scenario; 'never' = longer than the run",
     "close() of a socket never fails",
+    "a per-address bind error is a property of the local address for the whole run (every bind() on it fails, the others succeed)",
 ]
 BUDGET = {"quick": 40, "thorough": 480}
 
@@ -108,16 +117,40 @@ def _draw_scenario(world: World, modes: tuple[str, ...]) -> dict:
         else:
             outcomes.append(("err", 0, errno.ENETUNREACH, "sync"))
     emfile = [i for i in range(n + 2) if world.chance("emfile", 1, 10)]
+    locals_, lfault, bind_fail = _draw_locals(world, n, 3)
+    return {"mode": mode, "addrs": addrs, "hed": hed_i, "outcomes": outcomes, "emfile": emfile, "locals": locals_, "lfault": lfault, "bind_fail": bind_fail}
+
+
+def _draw_locals(world: World, n: int, den: int) -> tuple[list[tuple[int, str]], list[int], list[int]]:
+    """``local_address``: the local host name resolves to 1-3 addresses per family (one family may be absent: "no matching
+    local address"), listed v4 first / v6 first / alternating.  Two independent bind fault axes:
+      * ``lfault[i]``: errno with which EVERY bind() on local address i fails (EADDRINUSE / EADDRNOTAVAIL, a property of
+        the address, hence independent of the order in which the library races the remote addresses), 0 = bindable;
+      * ``bind_fail``: indices of bind() CALLS that fail (transient, order dependent; no reachability model then)."""
     locals_: list[tuple[int, str]] = []
+    lfault: list[int] = []
     bind_fail: list[int] = []
-    if world.chance("local", 1, 4):
-        for i in range(1 + world.choose("nlocal", 3)):
-            if world.choose("lfam", 2):
-                locals_.append((int(_socket.AF_INET6), f"fd00:1::{i + 1}"))
-            else:
-                locals_.append((int(_socket.AF_INET), f"10.1.0.{i + 1}"))
+    if not world.chance("local", 1, den):
+        return locals_, lfault, bind_fail
+    fams = world.choose("lfams", 3)  # 0 both families | 1 IPv4 only | 2 IPv6 only
+    n4 = 0 if fams == 2 else 1 + world.choose("nlocal4", 3)
+    n6 = 0 if fams == 1 else 1 + world.choose("nlocal6", 3)
+    order = world.choose("lorder", 3)  # 0 v4 first | 1 v6 first | 2 alternate
+    v4 = [(int(_socket.AF_INET), f"10.1.0.{i + 1}") for i in range(n4)]
+    v6 = [(int(_socket.AF_INET6), f"fd00:1::{i + 1}") for i in range(n6)]
+    if order == 0:
+        locals_ = v4 + v6
+    elif order == 1:
+        locals_ = v6 + v4
+    else:
+        for i in range(3):
+            locals_.extend(v4[i : i + 1] + v6[i : i + 1])
+    for _ in locals_:
+        k = world.choose("lfault", 4)
+        lfault.append(0 if k < 2 else (errno.EADDRINUSE if k == 2 else errno.EADDRNOTAVAIL))
+    if world.chance("bindfail_calls", 1, 3):
         bind_fail = [i for i in range(3 * n) if world.chance("bindfail", 1, 4)]
-    return {"mode": mode, "addrs": addrs, "hed": hed_i, "outcomes": outcomes, "emfile": emfile, "locals": locals_, "bind_fail": bind_fail}
+    return locals_, lfault, bind_fail
 
 
 def _draw_tail_only(world: World, mode: str) -> dict:
@@ -155,7 +188,10 @@ def _draw_tail_only(world: World, mode: str) -> dict:
             if k == 2:
                 outcomes[-1] = ("err", 0, errno.ENETUNREACH, "sync")
     world.probe("scenario_tail_only")
-    return {"mode": mode, "addrs": addrs, "hed": world.choose("hed", 4), "outcomes": outcomes, "emfile": [], "locals": [], "bind_fail": []}
+    hed_i = world.choose("hed", 4)
+    # the only reachable address may in addition need the 2nd/3rd local address of its family (per-address bind faults only)
+    locals_, lfault, _ = _draw_locals(world, 0, 4)
+    return {"mode": mode, "addrs": addrs, "hed": hed_i, "outcomes": outcomes, "emfile": [], "locals": locals_, "lfault": lfault, "bind_fail": []}
 
 
 def _hed_effective(sc: dict) -> float:
@@ -167,6 +203,17 @@ def _hed_effective(sc: dict) -> float:
 
 def _hed_value(sc: dict) -> float | None:
     return {0: None, 1: 0.25, 2: 0.0, 3: math.inf}[sc["hed"]]
+
+
+def _unbindable(sc: dict) -> dict[str, str]:
+    return {ip: errno.errorcode[code] for (_, ip), code in zip(sc["locals"], sc.get("lfault", ())) if code}
+
+
+def _bindable(sc: dict, family: int) -> list[str] | None:
+    """local addresses on which a socket of `family` can be bound (None: no local_address requested, nothing to bind)"""
+    if not sc["locals"]:
+        return None
+    return [ip for (fam, ip), code in zip(sc["locals"], sc.get("lfault", ())) if fam == family and not code]
 
 
 # ------------------------------------------------------------------------------------------------------ one run
@@ -242,6 +289,20 @@ def _run(world: World, sc: dict, *, cancel_iter: int | None = None, cancel_time:
         return None
 
     net.fault_plan = plan
+
+    # per-address bind faults: the address is in use / not configured on this host, so EVERY bind() on it fails
+    lfault = {ip: code for (_, ip), code in zip(sc["locals"], sc.get("lfault", ())) if code}
+    sim_bind = net.bind
+
+    def bind(sock: SimSocket, address: Any) -> None:
+        if address is not None and address[0] in lfault:
+            world.fault("bind_fail")
+            world.log("bind_fail", sock.label, address[0], lfault[address[0]])
+            raise OSError(lfault[address[0]], os.strerror(lfault[address[0]]))
+        sim_bind(sock, address)
+
+    if lfault:
+        net.bind = bind  # type: ignore[method-assign]
 
     hed = _hed_value(sc)
     local_address = ("sim.local", 0) if sc["locals"] else None
@@ -350,7 +411,7 @@ def _run(world: World, sc: dict, *, cancel_iter: int | None = None, cancel_time:
             await asyncio.sleep(0)
         lib = [s for s in world.sockets if not any(s is p for p in peers)]
         res["lib_total"] = len(lib)
-        res["open"] = [(s.label, s.fileno(), bool(s.connected), s.peername[0] if s.peername else None) for s in lib if not s.sim_closed]
+        res["open"] = [(s.label, s.fileno(), bool(s.connected), s.peername[0] if s.peername else None, s.sockname[0] if s.sockname else None) for s in lib if not s.sim_closed]
         res["established"] = [s.label for s in established]
         # tidy up (not part of the oracle)
         try:
@@ -392,7 +453,7 @@ def _describe(sc: dict, res: dict, extra: str) -> str:
     exc = res.get("exc")
     return (
         f"{extra} mode={sc['mode']} addrs={sc['addrs']} outcomes={sc['outcomes']} happy_eyeballs_delay={_hed_value(sc)} emfile={sc['emfile']} "
-        f"locals={sc['locals']} bind_fail={sc['bind_fail']} | outcome={res['outcome']} exc={type(exc).__name__ if exc is not None else None}"
+        f"locals={sc['locals']} unbindable_local_addresses={_unbindable(sc)} failing_bind_calls={sc['bind_fail']} | outcome={res['outcome']} exc={type(exc).__name__ if exc is not None else None}"
         f"{[type(e).__name__ + ':' + str(getattr(e, 'errno', '')) for e in _leaves(exc)] if exc is not None else ''} returned_fd={res.get('ret_fd')} "
         f"open_library_sockets={res.get('open')} established={res.get('established')} attempts_started={res.get('started')} socket_calls={res.get('nsock')} cancel_sent={res['cancel_sent']} hang={res['hang']}"
     )
@@ -442,11 +503,20 @@ def _check(world: World, sc: dict, res: dict, family: str, extra: str = "") -> N
         world.progress(1)
         if len(opened) != 1:
             raise bad("success-exactly-one-open-socket")
-        label, fd, connected, peer_ip = opened[0]
+        label, fd, connected, peer_ip, local_ip = opened[0]
         if fd != res["ret_fd"]:
             raise bad("success-open-socket-is-the-returned-one")
         if not connected or label not in res["established"]:
             raise bad("success-returned-socket-is-connected")
+        if sc["locals"]:
+            # local_address was requested: the returned socket is bound to one of its addresses, of the family of the peer,
+            # on which bind() can succeed
+            fam_of = {ip: fam for fam, ip in sc["addrs"]}
+            if local_ip not in (_bindable(sc, fam_of[peer_ip]) or ()):
+                raise bad("success-socket-bound-to-a-bindable-local-address")
+            ips = [ip for _, ip in sc["locals"]]
+            if any(fam == fam_of[peer_ip] and ip in _unbindable(sc) for fam, ip in sc["locals"][: ips.index(local_ip)]):
+                world.probe("bound_to_a_later_local_address_after_a_bind_error")
     else:
         if opened:
             raise bad("failure-no-open-socket")
@@ -468,22 +538,27 @@ def _check(world: World, sc: dict, res: dict, family: str, extra: str = "") -> N
         raise bad("all-fail-means-every-address-was-attempted")
     if out == "ok" and not (1 <= res["nsock"] <= n):
         raise bad("one-socket-per-attempted-address")
-    reachable = [a[1] for a, o in zip(sc["addrs"], sc["outcomes"]) if o[0] == "ok"]
-    if reachable and not sc["emfile"] and not sc["locals"]:
-        # some resolved address accepts the connection and nothing but the scripted outcomes can fail an attempt: every
+    # reachable = the peer accepts AND (no local_address requested, or some local address of that family can be bound)
+    reachable = [a[1] for a, o in zip(sc["addrs"], sc["outcomes"]) if o[0] == "ok" and _bindable(sc, a[0]) != []]
+    if sc["locals"] and not reachable and any(o[0] == "ok" for o in sc["outcomes"]):
+        world.probe("accepting_address_without_bindable_local_address")
+    if reachable and not sc["emfile"] and not sc["bind_fail"]:
+        # some resolved address accepts the connection (from a local address which can be bound, if local_address is given)
+        # and nothing but the scripted outcomes / per-address bind errors can fail an attempt: every
         # address is attempted eventually unless an earlier one wins, so the call has to succeed.  Only a 'never' attempt
         # with an infinite stagger delay may legitimately keep the race from ever reaching it.
+        clause = "reachable-address-with-bindable-local-address-must-connect" if sc["locals"] else "reachable-address-must-connect"
         blocked_ok = math.isinf(_hed_effective(sc)) and any(o[0] == "never" for o in sc["outcomes"])
         if res["hang"]:
             if not blocked_ok:
-                raise bad("reachable-address-must-connect")
+                raise bad(clause)
         elif out != "ok":
-            raise bad("reachable-address-must-connect")
+            raise bad(clause)
 
 
 # ------------------------------------------------------------------------------------------------------ harnesses
 def _notes(world: World, sc: dict, **kw: Any) -> None:
-    world.notes.update(mode=sc["mode"], addrs=[a[1] for a in sc["addrs"]], outcomes=[list(o) for o in sc["outcomes"]], hed=str(_hed_value(sc)), emfile=sc["emfile"], locals=[a[1] for a in sc["locals"]], bind_fail=sc["bind_fail"], **kw)  # type: ignore[attr-defined]
+    world.notes.update(mode=sc["mode"], addrs=[a[1] for a in sc["addrs"]], outcomes=[list(o) for o in sc["outcomes"]], hed=str(_hed_value(sc)), emfile=sc["emfile"], locals=[a[1] for a in sc["locals"]], unbindable=_unbindable(sc), bind_fail=sc["bind_fail"], **kw)  # type: ignore[attr-defined]
 
 
 def _h_race(world: World, modes: tuple[str, ...]) -> None:
